@@ -18,6 +18,7 @@ import z3
 from . import theory
 from .interp import (Frame, MergeAbort, Obligation, Path, PathInfeasible, SymRaise, _Return,
                      mk_exc)
+from . import seqs
 from .intrinsics import Intrinsics
 from .source import ClassInfo, ExtractionError, FunctionInfo, SourceIndex
 from .types import TypeParser, show
@@ -51,6 +52,8 @@ class Contract:
         self.use: list | None = g('use', None)      # restrict which contracts are used modularly (None = all)
         self.no_use: list = g('no_use', [])
         self.note: str = g('note', '')
+        self.loop_types: dict = g('loop_types', {})   # loop index -> {assigned variable: type string}
+        self.aliases: dict = g('aliases', {})         # 'a.b': 'c.d'  -- input field a.b IS the object c.d
         self.pre = ci.methods.get('pre')
         self.post = ci.methods.get('post')
         self.raises = ci.methods.get('raises')
@@ -183,6 +186,8 @@ class Explorer:
                 kw[n] = bound[n]
             elif extra and n in extra:
                 kw[n] = extra[n]
+            elif n == 'self':
+                kw[n] = None        # contract of a module-level function
             else:
                 raise InterpError(f'{fn.qualname}: contract parameter {n} not among target parameters {list(bound)}')
         try:
@@ -326,7 +331,15 @@ class Explorer:
                 bound[p] = SObj(t[1], {}, 'self')
                 continue
             P.param_types[p] = (t, None)
+            if info is not None and info.name == '__post_init__' and p == 'self' and t[0] == 'obj':
+                # dataclass hook: the fields are set, nothing is validated yet (no class invariant)
+                bound[p] = seqs.fresh_raw_obj(P, t, p)
+                continue
             bound[p] = P.fresh(t, p)
+        for dst, src in c.aliases.items():
+            base, _, fld = dst.rpartition('.')
+            holder = self._resolve_path(P, bound, base)
+            P.write(holder.fields, fld, self._resolve_path(P, bound, src))
         P.bound = bound
         if c.pre is not None:
             for k, cond in self._call_spec(P, c.pre, bound).items():
@@ -363,6 +376,10 @@ class Explorer:
                 outcome = ('return', result)
             except SymRaise as e:
                 outcome = ('raise', e.exc.name, e.exc.bases, e.where)
+            except seqs.PathEnd:
+                # end of a loop-step path: its obligations (inv-step) are already recorded
+                res.outcome = 'loop-step'
+                return
         res.outcome = outcome[0] if outcome[0] == 'return' else f'raise {outcome[1]}'
         # --- exceptional behaviour
         rz = self._call_spec(P, c.raises, bound) if c.raises is not None else {}
@@ -414,6 +431,8 @@ class Explorer:
                             # union resolved to None / opaque: fine if forced from this lazy
                             continue
                         if isinstance(cv, tuple):
+                            continue
+                        if seqs.forced_from(cv, pv.name):
                             continue
                         P.oblige(f'{c.short}#frame[{pth}]', 'frame', False)
                         continue
@@ -519,7 +538,8 @@ class Explorer:
         status = 'none'
         for B in (bounds or self.refute_bound):
             try:
-                status, model = bounded_model(formulas, B, timeout_ms or self.refute_timeout_ms)
+                status, model = bounded_model(formulas, B, timeout_ms or self.refute_timeout_ms,
+                                              extra=seqs.len_bounds(P, B))
             except Exception as e:
                 return None, f'error: {e}'
             if model is not None:
